@@ -193,8 +193,12 @@ func readHeadAt(b []byte, off int) (headPos, int) {
 }
 
 // headsOf walks a VALID message encoding and lists its heads.
-func headsOf(b []byte) []headPos {
-	var hs []headPos
+func headsOf(b []byte) (hs []headPos) {
+	defer func() {
+		if recover() != nil { // not a well-formed encoding (a broken encoder): no head-level mutants
+			hs = nil
+		}
+	}()
 	add := func(h headPos, what string) { h.What = what; hs = append(hs, h) }
 	h, off := readHeadAt(b, 0)
 	add(h, "fields")
